@@ -55,14 +55,15 @@ def add_contents_to_tarfile(contents_set, tar_fd, absolute_paths=False):
         if t.isreg():
             key = (x.dev, x.inode)
             existing = inodes.get(key)
-            data = None
-            if existing is not None:
-                if x._can_be_hardlinked(existing):
-                    t.type = tarfile.LNKTYPE
-                    t.linkname = "./{}".format(existing.location.lstrip("/"))
-                    t.size = 0
+            if existing is not None and x._can_be_hardlinked(existing):
+                t.type = tarfile.LNKTYPE
+                t.linkname = "./{}".format(existing.location.lstrip("/"))
+                t.size = 0
+                data = None
             else:
-                inodes[key] = x
+                # not a hardlink of something already written (this includes files without
+                # inode information and "same inode, different attributes"): store the data.
+                inodes.setdefault(key, x)
                 data = x.data.bytes_fileobj()
             tar_fd.addfile(t, fileobj=data)
             # tar_fd.addfile(t, fileobj=x.data.bytes_fileobj())
